@@ -70,6 +70,8 @@ impl<'a> LexiconSet<'a> {
             return Err(LexiconSetError::TooManyDictionaries);
         }
         lexicon.set_dic_id(self.lexicons.len() as u8);
+        #[cfg(sudachi_verif)]
+        crate::verif::emit_global("dict_write", serde_json::json!({"what": "lexicon_append", "dic": self.lexicons.len(), "pos_offset": pos_offset}));
         self.lexicons.push(lexicon);
         self.pos_offsets.push(pos_offset);
         Ok(())
